@@ -49,28 +49,35 @@ public:
 		doSort();
 	}
 
-	void splice(const_iterator pos, OrderedQueueList & other, const_iterator it) {
-		super::splice(pos, other, it);
-		doSort();
+	void splice(const_iterator /*pos*/, OrderedQueueList & other, const_iterator it) {
+		// Find the position before changing anything, so that nothing is changed if the
+		// comparison throws. The item is put after all items that are not greater than it,
+		// that keeps the order of equivalent items.
+		auto position = this->begin();
+		while(position != this->end() && ! doCompare(*it, *position)) {
+			++position;
+		}
+		super::splice(position, other, it);
 	}
 
 private:
-	void doSort() {
-		auto compare = Compare();
-		this->sort([compare](const T & a, const T & b) {
-			// a and b may be empty if they are recycled to free list.
-			if(a.empty()) {
-				if(b.empty()) {
-					return false;
-				}
-				return true;
-			}
-			else if(b.empty()) {
+	static bool doCompare(const T & a, const T & b) {
+		// a and b may be empty if they are recycled to free list.
+		if(a.empty()) {
+			if(b.empty()) {
 				return false;
 			}
+			return true;
+		}
+		else if(b.empty()) {
+			return false;
+		}
 
-			return compare(a.get(), b.get());
-		});
+		return Compare()(a.get(), b.get());
+	}
+
+	void doSort() {
+		this->sort(&OrderedQueueList::doCompare);
 	}
 };
 
